@@ -399,9 +399,10 @@ def chkTrusted (E : Env) (allowUntrusted : Bool) : Check Cred :=
       guard (allowUntrusted || c.types.all (fun t => t == vcType || E.trusted t c.issuer)) "untrusted" }
 def chkValidAt (cfg : Cfg) (E : Env) (at_ : Option Time) : Check Cred :=
   { name := "valid-at", run := fun c => guard (credValidAt cfg c (atOf E at_)) "not-valid-at-time" }
+/-- did.ParseDID(issuer) (an error is returned since repo commit b8f4b3e; before, the nil DID was dereferenced) -/
 def chkIssuerIsDID (E : Env) : Check Cred :=
   { name := "issuer-is-did", run := fun c => match E.parseDID c.issuer with
-      | none => .panic "Verify:nil-issuerDID" | some _ => .pass }
+      | none => .fail "issuer-unresolvable" | some _ => .pass }
 def chkIssuerResolves (E : Env) (at_ : Option Time) : Check Cred :=
   { name := "issuer-resolves", run := fun c => match E.parseDID c.issuer with
       | some d => guard (E.resolve at_ d).isSome "issuer-unresolvable"
